@@ -81,27 +81,66 @@ class Sched:
 
 class Ctx:
     S = None
+    events = []
 
 
 class CoopEvent:
     def __init__(self):
         self.flag = False
+        self.ops = []
+        Ctx.events.append(self)
 
     def is_set(self):
-        Ctx.S.yield_point('is_set')
+        if Ctx.S is not None:
+            Ctx.S.yield_point('is_set')
         return self.flag
 
     def set(self):
-        Ctx.S.yield_point('set')
+        if Ctx.S is not None:
+            Ctx.S.yield_point('set')
+        self.ops.append('set')
         self.flag = True
 
     def clear(self):
-        Ctx.S.yield_point('clear')
+        if Ctx.S is not None:
+            Ctx.S.yield_point('clear')
+        self.ops.append('clear')
         self.flag = False
 
     def wait(self, timeout=None):
-        Ctx.S.yield_point('wait', blocked_until=lambda: self.flag)
+        if Ctx.S is not None:
+            Ctx.S.yield_point('wait', blocked_until=lambda: self.flag)
         return True
+
+
+def event_roles(runner_class, make_interpreter):
+    """Which of the `threading.Event`s a runner creates is the pause flag and which the stop flag,
+    found by calling the public `pause()` and `stop()` on a runner that is never started (no private
+    name is read).  Returns (index of the unpaused flag, index of the stop flag) in creation order."""
+    saved, Ctx.S, Ctx.events = Ctx.S, None, []
+    try:
+        class Probe(runner_class):
+            def wait(self):
+                pass
+
+            def __del__(self):
+                pass
+        probe = Probe(make_interpreter())
+        evs = list(Ctx.events)
+        for e in evs:
+            del e.ops[:]
+        probe.pause()
+        cleared = [i for i, e in enumerate(evs) if 'clear' in e.ops]
+        for e in evs:
+            del e.ops[:]
+        probe.stop()
+        was_set = [i for i, e in enumerate(evs) if 'set' in e.ops]
+        if len(cleared) != 1 or len([i for i in was_set if i != cleared[0]]) != 1:
+            raise engine.MachineryError('cannot tell the pause flag from the stop flag of AsyncRunner: '
+                                        'pause() cleared %s, stop() set %s of %d events' % (cleared, was_set, len(evs)))
+        return cleared[0], [i for i in was_set if i != cleared[0]][0]
+    finally:
+        Ctx.S, Ctx.events = saved, []
 
 
 class CoopThread:
@@ -171,11 +210,14 @@ def run_schedule(payload, rnd=None):
 
             def wait(self):
                 # the real wait() joins only a live thread; one scheduling point in either case
-                S.yield_point('join', blocked_until=lambda: not self._thread.is_alive())
+                S.yield_point('join', blocked_until=lambda: not self.running)
 
             def __del__(self):
                 pass
+        i_unpaused, i_stop = event_roles(rr.AsyncRunner, lambda: Interpreter(import_from_yaml(CHART)))
+        Ctx.events = []
         r = R(it, interval=0.1, execute_all=payload['execute_all'])
+        r_events = list(Ctx.events)
         start_err = []
 
         def client_body(prog):
@@ -236,7 +278,7 @@ def run_schedule(payload, rnd=None):
             result = 'deadlock' if any(v != 'done' for v in S.state.values()) else 'done'
         obs = {'executed': executed, 'reported': reported, 'before_run': hooks['before_run'],
                'after_run': hooks['after_run'], 'cycles': hooks['cycles'],
-               'unpaused': r._unpaused.flag, 'stop': r._stop.flag, 'final': Interpreter.final.fget(it),
+               'unpaused': r_events[i_unpaused].flag, 'stop': r_events[i_stop].flag, 'final': Interpreter.final.fget(it),
                'runner_done': S.state.get('runner') == 'done',
                'enabled': [nm in en for nm in names]}
         aux = {'result': result, 'trace': list(S.trace), 'names': names,
